@@ -125,7 +125,7 @@ def run_property(prop, tier, replay=None, extra_props=()):
         thorough = tier == 'thorough'
         if replay and json.load(open(replay))['case'].get('multiscope'):
             from . import mscope_common
-            mscope_common.run_into(ck, tier, wd, replay_case=json.load(open(replay))['case'])
+            mscope_common.run_into(ck, tier, wd, replay_case=json.load(open(replay))['case'], prop=prop)
             ck.rule = 'replay of one multi-scope program (PyScope.tla)'
             return ck.finish()
         if replay:
@@ -190,10 +190,11 @@ def run_property(prop, tier, replay=None, extra_props=()):
                    'distinct by abstract tree' % ('canonical C03 fragment for %d%%' % int(100 * (0.7 if prop == 'C03' else 0.5 if prop == 'C02' else 0.3)),
                                                   'every program' if thorough else 'every third program'))
         ck.exhaustive = False
-        if prop == 'C01' and not replay:
+        if prop in ('C01', 'C02') and not replay:
             # beyond one body: nested functions, lambdas, classes, comprehensions, closures, global / nonlocal, calls
+            # (C02: the reads whose binding is in the read's own body)
             from . import mscope_common
-            mscope_common.run_into(ck, tier, wd)
+            mscope_common.run_into(ck, tier, wd, prop=prop)
             ck.rule += ('; PLUS seeded random MULTI-SCOPE programs (nested def with every parameter kind, defaults / decorators / annotations, '
                         'lambda, class with bases / keywords, comprehensions, closures, global, nonlocal, calls, if / for) with all executions '
                         'explored by TLC on PyScope.tla (frames, cells, LOAD_NAME fallback of class bodies), validated two-way against CPython '
